@@ -135,7 +135,7 @@ example : ∃ r, dispatch demo Miros.Gen.cfg s8 0 = .ok r ∧ r.state = s8 ∧ (
 
 /-! ### the unfixed code (no `max_index` resync after `trans_`) violates C01 on this chart -/
 
-def g0 : Cfg := { resync := false, drillGuard := true, initGuard := true }
+def g0 : Cfg := { resync := false, drillGuard := true, initGuard := true, superGuard := false }
 
 def okRes : Outcome Res → Option Res
   | .ok r => some r
